@@ -14,7 +14,9 @@ CFG = dict(
     level_text="Coq theorems about two executable models of defer/panic/recover over abstract programs (function tables with print/set/defer/panic/fault/call/recover/re-panic/return): Y transcribes yaegi's mechanism (per-frame deferred list and recovered field, Go-level recover/re-panic in runCfg, _recover reading the parent frame, argument slots kept by reference, Execute), G states Go's rules. C06_partial proves Y = G (trace, value seen by every recover, named results, final panic value) for all programs, unbounded call trees and defer stacks, on which none of the known-finding flags is raised, by simulation over the fuel; unbounded corollaries (LIFO / exactly once / after a deferred panic / arguments fixed / recover only direct / named results / top level) and five refutation witnesses and the regression theorem of the repaired closure-lock finding. Y is tied to the source on every run by behavioural correspondence: every generated program is run by real yaegi in child processes (whole program, and Eval+Eval+Eval on one interpreter) and compared with Y inside Coq, also inside the defect regions; G is validated against the same source compiled by the Go toolchain.",
     level_note="Trusted: Coq kernel + vm_compute, no axioms; harness printer/parser; compiled Go as reference. The mechanism of interp/run.go is modelled by hand; the tie is behavioural (about 1,500 programs per quick run, 15,000+ per thorough run), not a translation of the source.",
     technique="Coq simulation proof by induction on fuel through open recursion + model/implementation correspondence evaluated in Coq on generated programs + compiled-Go reference",
-    assumptions=["the models have no interpreter state that outlives Execute (the function table is an immutable input of y_eval): that closures, method values, globals and host-held function values defined before a panicking Eval keep working is checked behaviourally by the session stream of harness/c06_aux.go against the same session compiled, not proved (no C06_toplevel_state_preserved theorem)",
+    assumptions=["the failed-type-assertion fault is modelled in Coq as an abstract fault only; which assertions fail is checked behaviourally by the assert stream (complete matrix of static type x dynamic value x target class x form in every run) against compiled Go; the 135 cells on which interp.typeAssert already deviates are held to a recorded baseline (harness/c06_assert_today.go), which is a transcription of behaviour, not of the mechanism",
+                 "Y models Execute only: that no panic escapes through the other entry points (EvalWithContext, EvalPath, EvalPathWithContext, Compile, ExecuteWithContext, REPL) and from code run at compile time (initialisation of imported source packages) is checked behaviourally by the entry stream in child processes against the contract; the cells that already break it (finding import-init-panic-escapes) are held to the behaviour of the unchanged tree (c06EntryExpectedToday)",
+                 "the models have no interpreter state that outlives Execute (the function table is an immutable input of y_eval): that closures, method values, globals and host-held function values defined before a panicking Eval keep working is checked behaviourally by the session stream of harness/c06_aux.go against the same session compiled, not proved (no C06_toplevel_state_preserved theorem)",
                  "the receiver-pool stream (host method values, interpreted methods, function values; the same defer statement executed in a loop and in a recursion) is compared with compiled Go and, for interpreted methods in a loop (finding defer-arg-alias: the receiver is read when the call runs), with a source-level rendering of Y; it is not evaluated in Coq",
                  "run-time faults are modelled as panics with an abstract class; the wording of their messages is canonicalised (classifyPanic)",
                  "goroutines, runtime.Goexit, os.Exit / log.Fatal (restricted.go) and panics during compilation are outside the model",
